@@ -36,7 +36,7 @@ TConn == /\ IsEvent("conn")
 Live == { s \in DOMAIN body : ~ended[s] }
 
 TSet == /\ IsEvent("set")
-        /\ Expect(QuietP(body, sent, sgrant, cgrant, csent), "harness-settings-while-sender-busy")
+        /\ Expect(QuietP(body, sent, ended, sgrant, cgrant, csent), "harness-settings-while-sender-busy")
         /\ iws' = Ev.iws /\ tmfs' = Ev.mfs
         /\ sgrant' = [s \in DOMAIN sgrant |-> IF s \in Live THEN sgrant[s] + (Ev.iws - iws) ELSE sgrant[s]]
         /\ UNCHANGED <<body, sent, ended, cgrant, csent, lastN>> /\ Unused
@@ -84,7 +84,7 @@ THdr == /\ IsEvent("hdr")
 
 (* "delivers the complete body as window updates arrive": at a sync point nothing sendable is left *)
 TSync == /\ IsEvent("sync")
-         /\ Expect(QuietP(body, sent, sgrant, cgrant, csent), "stalled-with-open-window")
+         /\ Expect(QuietP(body, sent, ended, sgrant, cgrant, csent), "stalled-with-open-window")
          /\ UNCHANGED <<body, sent, ended, iws, sgrant, cgrant, csent, lastN, tmfs>> /\ Unused
 
 (* end of a case; the streams that have ended leave the books (the connection lives on for thousands of cases) *)
